@@ -46,6 +46,27 @@ def r_chr(): return chr
 def r_sorted(): return sorted
 def r_round(): return round
 def r_mix(): return (G0, len, G1)
+def r_closure():
+    def inner():
+        return (G0, G2)
+    return inner()
+r_lambda = lambda: (G1, abs)
+class _K:
+    def m(self):
+        return (G0, repr)
+    @staticmethod
+    def s():
+        return G2
+def r_method(): return _K().m()
+def r_static(): return _K.s()
+def r_gen(): return list(G1 for _ in (1, 2))
+def r_comp(): return [G0 for _ in (1,)] + [len]
+def r_default(x=None): return G2 if x is None else x
+def r_try():
+    try:
+        return G1
+    finally:
+        pass
 
 def w_G0(v):
     global G0
@@ -85,7 +106,8 @@ def d_repr():
     del repr
 '''
 
-READERS = ["r_G0_a", "r_G0_b", "r_G0_twice", "r_G1_a", "r_G1_b", "r_G2_a", "r_len", "r_len2", "r_abs", "r_repr", "r_mix", "r_ord", "r_chr", "r_sorted", "r_round"]
+READERS = ["r_G0_a", "r_G0_b", "r_G0_twice", "r_G1_a", "r_G1_b", "r_G2_a", "r_len", "r_len2", "r_abs", "r_repr", "r_mix", "r_ord", "r_chr", "r_sorted", "r_round",
+           "r_closure", "r_lambda", "r_method", "r_static", "r_gen", "r_comp", "r_default", "r_try"]
 
 
 def gen_history_c26(rng, maxlen, builtins_mutable):
